@@ -697,7 +697,7 @@ func vplugQuiet() { vplug.Quiet() }
 // replaced by one event whose field is the concatenation, other events unchanged, in order.
 func expectedJoin(sc *Scn) (map[string][]string, bool) {
 	chain := strings.Join(sc.Actions, ",")
-	if chain != "join" && chain != "discard,join" && chain != "joinmatch" {
+	if chain != "join" && chain != "discard,join" && chain != "joinmatch" && chain != "join,discard" {
 		return nil, false
 	}
 	if strings.Contains(sc.Sends, "f") {
@@ -706,9 +706,12 @@ func expectedJoin(sc *Scn) (map[string][]string, bool) {
 	out := map[string][]string{}
 	for s, list := range sc.Sources {
 		cur := map[string]*string{} // per stream: run being joined
+		drop := map[string]bool{}   // per stream: the run's first event is one the discard behind the join drops
 		flush := func(k string) {
 			if cur[k] != nil {
-				out[k] = append(out[k], *cur[k])
+				if !(chain == "join,discard" && drop[k]) {
+					out[k] = append(out[k], *cur[k])
+				}
 				cur[k] = nil
 			}
 		}
@@ -736,10 +739,14 @@ func expectedJoin(sc *Scn) (map[string][]string, bool) {
 				flush(k)
 				v := m
 				cur[k] = &v
+				drop[k] = strings.Contains(e.JSON, `"d":"1"`)
 			case has && strings.HasPrefix(m, "C") && cur[k] != nil:
 				*cur[k] += m
 			default:
 				flush(k)
+				if chain == "join,discard" && strings.Contains(e.JSON, `"d":"1"`) {
+					break // dropped by the discard behind the join
+				}
 				if has {
 					out[k] = append(out[k], m)
 				} else {
